@@ -67,6 +67,99 @@ func init() {
 		fmt.Fprintf(&e.out, "def zeroPoolGuardBeforeDivision : Bool := %v\n",
 			guardPos != token.NoPos && (divPos == token.NoPos || guardPos < divPos))
 
+		// ---- the two node-annotation sources (reserved CPUs of the node reservation, exclusive system-QoS cpuset): wherever the
+		// package reads one of them, the handler of its parse error must not leave the function (the model's effReserved /
+		// effSysExcl turn an unreadable source into "protects nothing" and carry on with the other source).
+		//   source A: `x, err := getSystemQOSExclusiveCPU(..)` followed by `if err != nil {..}` (or as the if's init statement)
+		//   source B: `s, _ := apiext.GetReservedCPUs(..)` and later in the same block `cpuset.Parse(s)` with its `err != nil` handler
+		srcHandlers, srcLeaving := 0, 0
+		leaves := func(b *ast.BlockStmt) bool {
+			out := false
+			ast.Inspect(b, func(n ast.Node) bool {
+				switch v := n.(type) {
+				case *ast.FuncLit:
+					return false
+				case *ast.ReturnStmt:
+					out = true
+				case *ast.BranchStmt:
+					if v.Tok == token.GOTO {
+						out = true
+					}
+				case *ast.CallExpr:
+					if f := norm(v.Fun); f == "panic" || f == "os.Exit" || strings.HasPrefix(f, "klog.Fatal") || strings.HasPrefix(f, "log.Fatal") {
+						out = true
+					}
+				}
+				return true
+			})
+			return out
+		}
+		callIn := func(st ast.Stmt, suffix string) *ast.CallExpr {
+			as, ok := st.(*ast.AssignStmt)
+			if !ok {
+				return nil
+			}
+			for _, x := range as.Rhs {
+				if c, ok := x.(*ast.CallExpr); ok && strings.HasSuffix(norm(c.Fun), suffix) {
+					return c
+				}
+			}
+			return nil
+		}
+		errCond := func(ifs *ast.IfStmt) bool { return strings.Contains(norm(ifs.Cond), "err!=nil") }
+		for _, file := range e.dir(d) {
+			for _, decl := range file.Decls {
+				fd, ok := decl.(*ast.FuncDecl)
+				if !ok || fd.Body == nil || fd.Name.Name == "getSystemQOSExclusiveCPU" {
+					continue
+				}
+				ast.Inspect(fd.Body, func(n ast.Node) bool {
+					blk, ok := n.(*ast.BlockStmt)
+					if !ok {
+						return true
+					}
+					reservedVars := map[string]bool{}
+					for k, st := range blk.List {
+						if c := callIn(st, "GetReservedCPUs"); c != nil {
+							if id, ok := st.(*ast.AssignStmt).Lhs[0].(*ast.Ident); ok {
+								reservedVars[id.Name] = true
+							}
+						}
+						isSrc := func(s2 ast.Stmt) bool {
+							if callIn(s2, "getSystemQOSExclusiveCPU") != nil {
+								return true
+							}
+							if c := callIn(s2, "cpuset.Parse"); c != nil && len(c.Args) == 1 && reservedVars[norm(c.Args[0])] {
+								return true
+							}
+							return false
+						}
+						switch v := st.(type) {
+						case *ast.AssignStmt:
+							if isSrc(v) && k+1 < len(blk.List) {
+								if ifs, ok := blk.List[k+1].(*ast.IfStmt); ok && ifs.Init == nil && errCond(ifs) {
+									srcHandlers++
+									if leaves(ifs.Body) {
+										srcLeaving++
+									}
+								}
+							}
+						case *ast.IfStmt:
+							if v.Init != nil && isSrc(v.Init) && errCond(v) {
+								srcHandlers++
+								if leaves(v.Body) {
+									srcLeaving++
+								}
+							}
+						}
+					}
+					return true
+				})
+			}
+		}
+		fmt.Fprintf(&e.out, "def nodeSourceErrorHandlers : Nat := %d\n", srcHandlers)
+		fmt.Fprintf(&e.out, "def nodeSourceErrorHandlersLeaving : Nat := %d\n", srcLeaving)
+
 		// ---- which pods count: the `for ... range podMetas` loops of adjustByCPUSet and calcBECPUSet.
 		// number of `continue` guards and whether anything about the pod's lifecycle is consulted.
 		lifecycleWords := map[string]bool{"DeletionTimestamp": true, "DeletionGracePeriodSeconds": true, "Phase": true,
